@@ -1,5 +1,6 @@
 import PyxisVerif.Spec.C09
 import PyxisVerif.Lemmas.C10
+import PyxisVerif.Props.C10Global
 /-!
 # C10 – resolution succeeds exactly when names exist and by-value embedding is acyclic
 
